@@ -192,10 +192,10 @@ end C05
 /-- **Mask methods in terms of the criterion** (Dec band, RA band, box, psi-func): the returned
 events are exactly the input events that meet the criterion for at least one of the `K` sources, in
 their original order; `(k, j)` is in the table iff returned event `j` meets the criterion of source
-`k`; the original indices map back.  Never an error, whatever table comes in. -/
-theorem c05_mask_method_exact {ε : Type} (K : Nat) (crit : Nat → ε → Bool) (evs : List ε)
-    (inc : Option Pairs) :
-    ∃ r, maskMethod K crit evs inc = some r ∧
+`k`; the original indices map back.  (Call without incoming table; with one see
+`c05_mask_method_honors`.) -/
+theorem c05_mask_method_exact {ε : Type} (K : Nat) (crit : Nat → ε → Bool) (evs : List ε) :
+    ∃ r, maskMethod K crit evs none = some r ∧
       r.events = evs.filter (C05.anyCrit crit K) ∧
       (∀ k j, (k, j) ∈ r.pairs ↔ k < K ∧ ∃ e, r.events[j]? = some e ∧ crit k e = true) ∧
       take evs r.org = some r.events := by
@@ -433,19 +433,6 @@ theorem take_sorted {a b c : List Nat} (ha : a.Pairwise (· < ·)) (hb : b.Pairw
 
 end C05
 
-/-- mask methods are sound (whatever comes in) -/
-theorem c05_mask_method_sound {ε : Type} (K : Nat) (crit : Nat → ε → Bool) :
-    C05.Sound K (maskMethod K crit) := by
-  intro evs inc _
-  have hwf := C05.wf_critMask crit K evs
-  obtain ⟨r, hr, _, hsorted, _, _, hbound, hcov⟩ := c05_pairs_exact evs (critMask crit K evs) hwf
-  obtain ⟨r', hr', _, _, hos, ht⟩ := c05_selected_iff evs (critMask crit K evs) hwf
-  rw [hr] at hr'; cases hr'
-  refine ⟨r, hr, hos, ht, hsorted, ?_, hcov⟩
-  intro p hp
-  have := hbound p hp
-  simpa [critMask] using this
-
 /-- `AllEventSelectionMethod` is sound for at least one source -/
 theorem c05_all_method_sound {ε : Type} (K : Nat) (hK : 1 ≤ K) : C05.Sound K (allMethod K : Method ε) := by
   intro evs inc hinc
@@ -567,6 +554,297 @@ theorem c05_pair_method_sound {ε : Type} (K : Nat) (crit : Nat → ε → Bool)
     | none => rintro ⟨k, i⟩ hp; exact (C05.mem_fullPairs _ _ _ _).mp hp
   obtain ⟨r, hr, hv, _⟩ := c05_pair_method_exact K crit evs inc hb
   exact ⟨r, hr, hv⟩
+
+/-! ### methods that honour the incoming pair table; chaining is intersection -/
+
+namespace C05
+
+theorem entry_andMask (A B : List (List Bool)) (k i : Nat) :
+    Entry (andMask A B) k i ↔ Entry A k i ∧ Entry B k i := by
+  unfold Entry andMask
+  simp only [List.getElem?_zipWith]
+  constructor
+  · rintro ⟨row, hrow, hi⟩
+    cases ha : A[k]? with
+    | none => simp [ha] at hrow
+    | some a =>
+      cases hb : B[k]? with
+      | none => simp [ha, hb] at hrow
+      | some b =>
+        simp only [ha, hb, Option.some.injEq] at hrow
+        subst hrow
+        simp only [List.getElem?_zipWith] at hi
+        cases hai : a[i]? with
+        | none => simp [hai] at hi
+        | some x =>
+          cases hbi : b[i]? with
+          | none => simp [hai, hbi] at hi
+          | some y =>
+            simp only [hai, hbi, Option.some.injEq, Bool.and_eq_true] at hi
+            exact ⟨⟨a, rfl, by rw [hai, hi.1]⟩, ⟨b, rfl, by rw [hbi, hi.2]⟩⟩
+  · rintro ⟨⟨a, ha, hai⟩, ⟨b, hb, hbi⟩⟩
+    refine ⟨List.zipWith (fun x y => x && y) a b, by simp [ha, hb], ?_⟩
+    simp [List.getElem?_zipWith, hai, hbi]
+
+theorem wf_andMask (n : Nat) (A B : List (List Bool)) (hA : WF n A) (hB : WF n B) : WF n (andMask A B) := by
+  intro row hrow
+  unfold andMask at hrow
+  obtain ⟨k, hk⟩ := List.mem_iff_getElem?.mp hrow
+  simp only [List.getElem?_zipWith] at hk
+  cases ha : A[k]? with
+  | none => simp [ha] at hk
+  | some a =>
+    cases hb : B[k]? with
+    | none => simp [ha, hb] at hk
+    | some b =>
+      simp only [ha, hb, Option.some.injEq] at hk
+      subst hk
+      have h1 := hA a (List.mem_of_getElem? ha)
+      have h2 := hB b (List.mem_of_getElem? hb)
+      simp [h1, h2]
+
+/-- what a selection from a matrix `M` looks like when `M` is "table `T` ∧ criterion" -/
+theorem select_exact {ε : Type} (K : Nat) (crit : Nat → ε → Bool) (evs : List ε) (T : Pairs)
+    (M : List (List Bool)) (hwf : WF evs.length M) (hlen : M.length ≤ K)
+    (hb : ∀ p ∈ T, p.1 < K ∧ p.2 < evs.length)
+    (hE : ∀ k i, Entry M k i ↔ ∃ e, (k, i) ∈ T ∧ evs[i]? = some e ∧ crit k e = true) :
+    ∃ r, selectByMask evs M = some r ∧ Valid K evs r ∧
+      (∀ i, i ∈ r.org ↔ ∃ k e, (k, i) ∈ T ∧ evs[i]? = some e ∧ crit k e = true) ∧
+      (∀ k j, (k, j) ∈ r.pairs ↔ ∃ i e, r.org[j]? = some i ∧ (k, i) ∈ T ∧
+          evs[i]? = some e ∧ crit k e = true) := by
+  obtain ⟨r, hr, hiff, hsorted, _, _, hbound, hcov⟩ := c05_pairs_exact evs M hwf
+  obtain ⟨r', hr', _, hmem, hos, ht⟩ := c05_selected_iff evs M hwf
+  rw [hr] at hr'; cases hr'
+  refine ⟨r, hr, ⟨hos, ht, hsorted, ?_, hcov⟩, ?_, ?_⟩
+  · intro p hp; have := hbound p hp; exact ⟨by omega, this.2⟩
+  · intro i
+    rw [hmem]
+    constructor
+    · rintro ⟨_, k, hk⟩
+      obtain ⟨e, h1, h2, h3⟩ := (hE k i).mp hk
+      exact ⟨k, e, h1, h2, h3⟩
+    · rintro ⟨k, e, h1, h2, h3⟩
+      exact ⟨(hb _ h1).2, k, (hE k i).mpr ⟨e, h1, h2, h3⟩⟩
+  · intro k j
+    rw [hiff]
+    constructor
+    · rintro ⟨i, hj, hk⟩
+      obtain ⟨e, h1, h2, h3⟩ := (hE k i).mp hk
+      exact ⟨i, e, hj, h1, h2, h3⟩
+    · rintro ⟨i, e, hj, h1, h2, h3⟩
+      exact ⟨i, hj, (hE k i).mpr ⟨e, h1, h2, h3⟩⟩
+
+/-- `m` selects by criterion `c` *within the incoming table*: for every input with a structurally
+valid incoming table (or none = all pairs) it does not fail, the result is structurally valid, an
+input event is kept iff some incoming pair of it meets the criterion, and `(k, j)` is listed iff the
+incoming table has `(k, org[j])` and the criterion holds for it. -/
+def Honors {ε : Type} (K : Nat) (c : Nat → ε → Bool) (m : Method ε) : Prop :=
+  ∀ evs inc, (∀ P, inc = some P → ValidTable K evs.length P) →
+    ∃ r, m evs inc = some r ∧ Valid K evs r ∧
+      (∀ i, i ∈ r.org ↔ ∃ k e, (k, i) ∈ incTable K evs.length inc ∧ evs[i]? = some e ∧ c k e = true) ∧
+      (∀ k j, (k, j) ∈ r.pairs ↔ ∃ i e, r.org[j]? = some i ∧ (k, i) ∈ incTable K evs.length inc ∧
+          evs[i]? = some e ∧ c k e = true)
+
+theorem Honors.sound {ε : Type} {K : Nat} {c : Nat → ε → Bool} {m : Method ε} (h : Honors K c m) :
+    Sound K m := by
+  intro evs inc hinc
+  obtain ⟨r, hr, hv, _⟩ := h evs inc hinc
+  exact ⟨r, hr, hv⟩
+
+theorem incTable_bound {K n : Nat} {inc : Option Pairs} (hinc : ∀ P, inc = some P → ValidTable K n P) :
+    ∀ p ∈ incTable K n inc, p.1 < K ∧ p.2 < n := by
+  cases inc with
+  | some P => exact (hinc P rfl).bound
+  | none => rintro ⟨k, i⟩ hp; exact (mem_fullPairs _ _ _ _).mp hp
+
+end C05
+
+/-- **Mask methods honour the incoming table** (Dec band, RA band, box, psi-func after the fix):
+with an in-range incoming table — sorted or not, with or without duplicates — or none, the method
+does not fail; an event is kept iff it meets the criterion for a source it is paired with in the
+incoming table; `(k, j)` is listed iff `(k, org[j])` is an incoming pair meeting the criterion. -/
+theorem c05_mask_method_honors {ε : Type} (K : Nat) (crit : Nat → ε → Bool) (evs : List ε)
+    (inc : Option Pairs) (hb : ∀ p ∈ incTable K evs.length inc, p.1 < K ∧ p.2 < evs.length) :
+    ∃ r, maskMethod K crit evs inc = some r ∧ C05.Valid K evs r ∧
+      (∀ i, i ∈ r.org ↔ ∃ k e, (k, i) ∈ incTable K evs.length inc ∧ evs[i]? = some e ∧ crit k e = true) ∧
+      (∀ k j, (k, j) ∈ r.pairs ↔ ∃ i e, r.org[j]? = some i ∧ (k, i) ∈ incTable K evs.length inc ∧
+          evs[i]? = some e ∧ crit k e = true) := by
+  have hwfC := C05.wf_critMask crit K evs
+  cases inc with
+  | none =>
+    have h := C05.select_exact K crit evs (fullPairs K evs.length) (critMask crit K evs) hwfC
+      (by simp [critMask]) hb (by
+        intro k i
+        rw [C05.entry_critMask]
+        constructor
+        · rintro ⟨hk, e, he, hc⟩
+          exact ⟨e, (C05.mem_fullPairs _ _ _ _).mpr ⟨hk, (List.getElem?_eq_some_iff.mp he).1⟩, he, hc⟩
+        · rintro ⟨e, hp, he, hc⟩
+          exact ⟨((C05.mem_fullPairs _ _ _ _).mp hp).1, e, he, hc⟩)
+    exact h
+  | some P =>
+    have hbP : ∀ p ∈ P, p.1 < K ∧ p.2 < evs.length := hb
+    obtain ⟨I, hI, hwfI, hlenI, hentry⟩ := C05.scatter_some K evs.length P (P.map (fun _ => true)) hbP
+    have hM : restrictMask K evs.length (critMask crit K evs) (some P) = some (andMask (critMask crit K evs) I) := by
+      simp only [restrictMask, incMask, hI]
+    have h := C05.select_exact K crit evs P (andMask (critMask crit K evs) I)
+      (C05.wf_andMask _ _ _ hwfC hwfI) (by simp [andMask, critMask]) hbP (by
+        intro k i
+        rw [C05.entry_andMask, C05.entry_critMask, hentry, C05.zip_map_self]
+        simp only [List.mem_map]
+        constructor
+        · rintro ⟨⟨_, e, he, hc⟩, _, _, pb, ⟨p, hp, rfl⟩, h1, _⟩
+          simp only at h1
+          subst h1
+          exact ⟨e, hp, he, hc⟩
+        · rintro ⟨e, hp, he, hc⟩
+          have := hbP _ hp
+          exact ⟨⟨this.1, e, he, hc⟩, this.1, this.2, _, ⟨(k, i), hp, rfl⟩, rfl, rfl⟩)
+    simpa only [maskMethod, hM, incTable] using h
+
+theorem c05_mask_method_honors_all {ε : Type} (K : Nat) (crit : Nat → ε → Bool) :
+    C05.Honors K crit (maskMethod K crit) :=
+  fun evs inc hinc => c05_mask_method_honors K crit evs inc (C05.incTable_bound hinc)
+
+/-- mask methods are sound -/
+theorem c05_mask_method_sound {ε : Type} (K : Nat) (crit : Nat → ε → Bool) :
+    C05.Sound K (maskMethod K crit) := (c05_mask_method_honors_all K crit).sound
+
+theorem c05_pair_method_honors {ε : Type} (K : Nat) (crit : Nat → ε → Bool) :
+    C05.Honors K crit (pairMethod K crit) :=
+  fun evs inc hinc => c05_pair_method_exact K crit evs inc (C05.incTable_bound hinc)
+
+/-- **`AllEventSelectionMethod`, exactly**: all events, the identity as original indices, and the
+incoming table unchanged (the all-pairs table if there is none). -/
+theorem c05_all_method_exact {ε : Type} (K : Nat) (evs : List ε) (inc : Option Pairs) :
+    allMethod K evs inc =
+      some { events := evs, pairs := incTable K evs.length inc, org := List.range evs.length } := rfl
+
+/-- `AllEventSelectionMethod` honours the incoming table with the always-true criterion (`K ≥ 1`) -/
+theorem c05_all_method_honors {ε : Type} (K : Nat) (hK : 1 ≤ K) :
+    C05.Honors K (fun _ _ => true) (allMethod K : Method ε) := by
+  intro evs inc hinc
+  obtain ⟨r, hr, hv⟩ := c05_all_method_sound K hK evs inc hinc
+  have hr' := c05_all_method_exact K evs inc
+  rw [hr] at hr'
+  cases hr'
+  have hb := C05.incTable_bound hinc
+  refine ⟨_, hr, hv, ?_, ?_⟩
+  · intro i
+    simp only [List.mem_range]
+    constructor
+    · intro hi
+      obtain ⟨k, hk⟩ := hv.table.covered i hi
+      exact ⟨k, evs[i], hk, List.getElem?_eq_getElem hi, by simp⟩
+    · rintro ⟨k, e, hp, _, _⟩
+      exact (hb _ hp).2
+  · intro k j
+    constructor
+    · intro hp
+      have hj := (hb _ hp).2
+      exact ⟨j, evs[j], by simp [hj], hp, List.getElem?_eq_getElem hj, by simp⟩
+    · rintro ⟨i, e, hj, hp, _, _⟩
+      obtain ⟨_, rfl⟩ := List.getElem?_eq_some_iff.mp hj
+      simpa using hp
+
+/-- **Chaining is intersection** (the property text "stays true when methods are chained", at full
+strength): if `m1` selects by `c1` and `m2` by `c2`, each within its incoming table, then
+`m1 & m2` selects by "`c1` and `c2` for the same source" within *its* incoming table — an event is
+kept iff one source meets both criteria for it, `(k, j)` is listed iff returned event `j` meets both
+criteria for source `k`, the composed original indices map back.  By induction this gives every
+chain of Dec band, RA band, box, psi-func, ang-err-of-psi and All, in every nesting. -/
+theorem c05_chain_is_intersection {ε : Type} (K : Nat) (c1 c2 : Nat → ε → Bool) (m1 m2 : Method ε)
+    (h1 : C05.Honors K c1 m1) (h2 : C05.Honors K c2 m2) :
+    C05.Honors K (fun k e => c1 k e && c2 k e) (chain m1 m2) := by
+  intro evs inc hinc
+  obtain ⟨r1, hr1, v1, ho1, hp1⟩ := h1 evs inc hinc
+  obtain ⟨r2, hr2, v2, ho2, hp2⟩ := h2 r1.events (some r1.pairs) (by intro P hP; cases hP; exact v1.table)
+  obtain ⟨org, hc1, hc2⟩ := C05.take_take v1.maps_back v2.maps_back
+  have hpairs : ∀ k j, (k, j) ∈ r2.pairs ↔ ∃ i e, org[j]? = some i ∧
+      (k, i) ∈ incTable K evs.length inc ∧ evs[i]? = some e ∧ (c1 k e && c2 k e) = true := by
+    intro k j
+    rw [hp2 k j, take_getElem? hc1 j]
+    constructor
+    · rintro ⟨i', e, hj, hk1, he, hcc2⟩
+      obtain ⟨i, e1, hi', hT, he1, hcc1⟩ := (hp1 k i').mp hk1
+      have : r1.events[i']? = evs[i]? := by rw [take_getElem? v1.maps_back i', hi']; rfl
+      rw [this, he1] at he
+      have hee : e1 = e := Option.some.inj he
+      subst hee
+      exact ⟨i, e1, by simp [hj, hi'], hT, he1, by simp [hcc1, hcc2]⟩
+    · rintro ⟨i, e, hj, hT, he, hcc⟩
+      rw [Bool.and_eq_true] at hcc
+      cases hj2 : r2.org[j]? with
+      | none => simp [hj2] at hj
+      | some i' =>
+        have hi' : r1.org[i']? = some i := by simpa [hj2] using hj
+        have : r1.events[i']? = some e := by rw [take_getElem? v1.maps_back i', hi']; exact he
+        exact ⟨i', e, rfl, (hp1 k i').mpr ⟨i, e, hi', hT, he, hcc.1⟩, this, hcc.2⟩
+  refine ⟨{ events := r2.events, pairs := r2.pairs, org := org }, by simp only [chain, hr1, hr2, hc1],
+    ⟨C05.take_sorted v1.org_sorted v2.org_sorted hc1, hc2, v2.table⟩, ?_, hpairs⟩
+  intro i
+  simp only
+  constructor
+  · intro hi
+    obtain ⟨j, hj⟩ := List.mem_iff_getElem?.mp hi
+    have hjlt : j < r2.events.length := by
+      have := take_length hc2
+      have := (List.getElem?_eq_some_iff.mp hj).1
+      omega
+    obtain ⟨k, hk⟩ := v2.table.covered j hjlt
+    obtain ⟨i2, e, hj2, hT, he, hcc⟩ := (hpairs k j).mp hk
+    rw [hj] at hj2
+    cases hj2
+    exact ⟨k, e, hT, he, hcc⟩
+  · rintro ⟨k, e, hT, he, hcc⟩
+    rw [Bool.and_eq_true] at hcc
+    obtain ⟨i', hi'⟩ := List.mem_iff_getElem?.mp ((ho1 i).mpr ⟨k, e, hT, he, hcc.1⟩)
+    have hev : r1.events[i']? = some e := by rw [take_getElem? v1.maps_back i', hi']; exact he
+    have hk1 : (k, i') ∈ r1.pairs := (hp1 k i').mpr ⟨i, e, hi', hT, he, hcc.1⟩
+    obtain ⟨j, hj⟩ := List.mem_iff_getElem?.mp ((ho2 i').mpr ⟨k, e, hk1, hev, hcc.2⟩)
+    have : org[j]? = some i := by rw [take_getElem? hc1 j, hj]; exact hi'
+    exact List.mem_of_getElem? this
+
+/-- the same for a call without incoming table, read off the finally returned events -/
+theorem c05_chain_exact {ε : Type} (K : Nat) (c1 c2 : Nat → ε → Bool) (m1 m2 : Method ε)
+    (h1 : C05.Honors K c1 m1) (h2 : C05.Honors K c2 m2) (evs : List ε) :
+    ∃ r, chain m1 m2 evs none = some r ∧ take evs r.org = some r.events ∧ r.org.Pairwise (· < ·) ∧
+      (∀ k j, (k, j) ∈ r.pairs ↔ k < K ∧ ∃ e, r.events[j]? = some e ∧ c1 k e = true ∧ c2 k e = true) ∧
+      (∀ j, j < r.events.length → ∃ k, (k, j) ∈ r.pairs) := by
+  obtain ⟨r, hr, hv, _, hp⟩ := c05_chain_is_intersection K c1 c2 m1 m2 h1 h2 evs none (by intro P hP; cases hP)
+  refine ⟨r, hr, hv.maps_back, hv.org_sorted, ?_, hv.table.covered⟩
+  intro k j
+  rw [hp k j, take_getElem? hv.maps_back j]
+  simp only [incTable, C05.mem_fullPairs, Bool.and_eq_true]
+  constructor
+  · rintro ⟨i, e, hj, ⟨hk, _⟩, he, hcc⟩
+    exact ⟨hk, e, by simp [hj, he], hcc⟩
+  · rintro ⟨hk, e, he, hcc⟩
+    cases hj : r.org[j]? with
+    | none => simp [hj] at he
+    | some i =>
+      have he' : evs[i]? = some e := by simpa [hj] using he
+      exact ⟨i, e, rfl, ⟨hk, (List.getElem?_eq_some_iff.mp he').1⟩, he', hcc⟩
+
+/-- the chain property for the mask methods as they were before the fix (incoming table ignored) -/
+def c05_chain_is_intersection_unfixed_statement : Prop :=
+  ∀ (K : Nat) (c1 c2 : Nat → Nat → Bool) (evs : List Nat) (r : Result Nat),
+    chain (maskMethodUnfixed K c1) (maskMethodUnfixed K c2) evs none = some r →
+    ∀ k j, (k, j) ∈ r.pairs ↔ k < K ∧ ∃ e, r.events[j]? = some e ∧ c1 k e = true ∧ c2 k e = true
+
+/-- two sources, the first criterion holds for source 0 only, the second for source 1 only: the
+un-fixed chain returns the event and lists it for source 1 although no source meets both criteria -/
+theorem c05_chain_is_intersection_unfixed_counterexample : ¬ c05_chain_is_intersection_unfixed_statement := by
+  intro h
+  have h1 := h 2 (fun k _ => k == 0) (fun k _ => k == 1) [0]
+    { events := [0], pairs := [(1, 0)], org := [0] } rfl 1 0
+  have h2 : (1, 0) ∈ [((1 : Nat), (0 : Nat))] := by simp
+  obtain ⟨_, e, _, hc, _⟩ := h1.mp h2
+  simp at hc
+
+-- the fixed chain on the same witness returns nothing
+example : (chain (maskMethod 2 (fun k (_ : Nat) => k == 0)) (maskMethod 2 (fun k _ => k == 1)) [0] none).map
+    (fun r => (r.events, r.pairs, r.org)) = some ([], [], []) := by decide
 
 namespace C05
 
@@ -795,7 +1073,7 @@ theorem c05_tdm_mask_method_exact {ε : Type} (K : Nat) (crit : Nat → ε → B
       t.pairs.Nodup ∧ (t.pairs.map Prod.fst).Pairwise (· ≤ ·) := by
   obtain ⟨r, t, τ, hr, hv, ht, hτ, htake, hiff, hfst, hnd, _, hnone⟩ :=
     c05_tdm_select_sort K evs (maskMethod K crit) (c05_mask_method_sound K crit) argsort hσ
-  obtain ⟨r', hr', hev, hp, _⟩ := c05_mask_method_exact K crit evs none
+  obtain ⟨r', hr', hev, hp, _⟩ := c05_mask_method_exact K crit evs
   rw [hr] at hr'; cases hr'
   refine ⟨t, ht, ?_, ?_, ?_, hnd, ?_⟩
   · rw [← hev]; exact C05.take_perm hτ htake
@@ -812,11 +1090,12 @@ theorem c05_tdm_mask_method_exact {ε : Type} (K : Nat) (crit : Nat → ε → B
       | some i => exact ⟨i, ⟨hk, e, by simpa [hj] using he, hc⟩, rfl⟩
   · rw [hfst]; exact (C05.sorted_nodup_grouped hv.table.sorted).2
 
-/-- the fixed PsiFunc index construction `np.argwhere(np.atleast_2d(mask)[:, mask])` is the
-one-source mask method, so `c05_mask_method_exact` (with `K = 1`) applies to it -/
-theorem c05_psifunc_fixed {ε : Type} (p : ε → Bool) (evs : List ε) (inc : Option Pairs) :
-    selectByMask evs [evs.map p] = maskMethod 1 (fun _ => p) evs inc := by
-  simp [maskMethod, critMask]
+/-- the PsiFunc construction (`np.atleast_2d(mask)`, restricted to the incoming table,
+`np.argwhere(mask_sky[:, mask])`) is the one-source mask method, so `c05_mask_method_exact` /
+`c05_mask_method_honors` with `K = 1` apply to it -/
+theorem c05_psifunc_fixed {ε : Type} (p : ε → Bool) : psiFuncMethod p = maskMethod 1 (fun _ => p) := by
+  funext evs inc
+  simp [psiFuncMethod, maskMethod, critMask]
 
 /-! ### histories of calls on one manager -/
 
@@ -868,15 +1147,6 @@ theorem c05_tdm_last_call_only {ε : Type} (self : TdmObj ε) (cs : List (TdmCal
     cases initTrialObj true self d.K d.evs d.sel d.argsort with
     | none => exact ih self
     | some s => exact ih s
-
-/-- the reset is present in the current source, so history independence holds for the code as it is -/
-theorem c05_tdm_history_independent_for_current_source {ε : Type} (self : TdmObj ε) (K : Nat)
-    (evs : List ε) (sel : Option (Method ε)) (argsort : Option (List ε → List Nat)) :
-    initTrialObj Gen.C05.resetsTable self K evs sel argsort =
-      (initTrial K evs sel argsort).map (fun t => { events := t.events, srcEvtIdxs := some t.pairs }) := by
-  have h : Gen.C05.resetsTable = true := by decide
-  rw [h]
-  exact c05_tdm_history_independent self K evs sel argsort
 
 /-- what `initialize_trial` without the reset would have to satisfy -/
 def c05_tdm_no_reset_statement : Prop :=
@@ -935,18 +1205,6 @@ theorem c05_esm_chain_change {S : Type} (o : EsmObj S × EsmObj S) (id : Nat) (s
     (chainChange false true o id srcs).1.srcArr = srcs ∧ (chainChange false true o id srcs).2.srcArr = srcs := by
   simp [chainChange, EsmObj.changeShgMgr]
 
-/-- the current source has no early return and forwards to both sub-methods -/
-theorem c05_esm_for_current_source {S ε : Type} (w : EsmWorld S) (ops : List (EsmOp S)) (id : Nat)
-    (mk : List S → Method ε) (o : EsmObj S × EsmObj S) (srcs : List S) :
-    esmSelect mk (esmRun Gen.C05.esmEarlyReturn w (ops ++ [.change id])) =
-      mk ((esmRun Gen.C05.esmEarlyReturn w ops).mgrs id) ∧
-    (chainChange Gen.C05.esmEarlyReturn Gen.C05.intersectionPropagatesBoth o id srcs).1.srcArr = srcs ∧
-    (chainChange Gen.C05.esmEarlyReturn Gen.C05.intersectionPropagatesBoth o id srcs).2.srcArr = srcs := by
-  have h1 : Gen.C05.esmEarlyReturn = false := by decide
-  have h2 : Gen.C05.intersectionPropagatesBoth = true := by decide
-  rw [h1, h2]
-  exact ⟨c05_esm_history w ops id mk, c05_esm_chain_change o id srcs⟩
-
 /-- what an early return on "same manager object" would have to satisfy -/
 def c05_esm_early_return_statement : Prop :=
   ∀ (w : EsmWorld Nat) (ops : List (EsmOp Nat)) (id : Nat),
@@ -992,57 +1250,6 @@ theorem c05_psifunc_unfixed_counterexample : ¬ c05_psifunc_unfixed_statement :=
   decide
 
 
-/-- **Two chained mask methods** (e.g. Dec band & RA band): the events are filtered by the first and
-then by the second any-source criterion (original order kept), the table is that of the second
-method on the finally returned events, the composed original indices map back to the initial
-events. -/
-theorem c05_chain_mask_mask {ε : Type} (K : Nat) (c1 c2 : Nat → ε → Bool) (evs : List ε)
-    (inc : Option Pairs) :
-    ∃ r, chain (maskMethod K c1) (maskMethod K c2) evs inc = some r ∧
-      r.events = (evs.filter (C05.anyCrit c1 K)).filter (C05.anyCrit c2 K) ∧
-      (∀ k j, (k, j) ∈ r.pairs ↔ k < K ∧ ∃ e, r.events[j]? = some e ∧ c2 k e = true) ∧
-      take evs r.org = some r.events := by
-  obtain ⟨r1, hr1, he1, _, ht1⟩ := c05_mask_method_exact K c1 evs inc
-  obtain ⟨r2, hr2, he2, hp2, ht2⟩ := c05_mask_method_exact K c2 r1.events (some r1.pairs)
-  obtain ⟨org, ho1, ho2⟩ := C05.take_take ht1 ht2
-  refine ⟨{ events := r2.events, pairs := r2.pairs, org := org }, ?_, ?_, hp2, ho2⟩
-  · simp only [chain, hr1, hr2, ho1]
-  · simp only [he2, he1]
-
-/-- **Mask method chained with the pair-table method** (e.g. spatial box & ang-err-of-psi): a true
-intersection on pairs — `(k, j)` is listed iff the finally returned event `j` meets *both* criteria
-for the *same* source `k`; every returned event has such a source; indices map back. -/
-theorem c05_chain_mask_pair {ε : Type} (K : Nat) (c1 c2 : Nat → ε → Bool) (evs : List ε)
-    (inc : Option Pairs) :
-    ∃ r, chain (maskMethod K c1) (pairMethod K c2) evs inc = some r ∧
-      (∀ k j, (k, j) ∈ r.pairs ↔ k < K ∧ ∃ e, r.events[j]? = some e ∧ c1 k e = true ∧ c2 k e = true) ∧
-      (∀ j, j < r.events.length → ∃ k, (k, j) ∈ r.pairs) ∧
-      take evs r.org = some r.events ∧ r.org.Pairwise (· < ·) := by
-  obtain ⟨r1, hr1, hv1⟩ := c05_mask_method_sound K c1 evs none (by intro P hP; cases hP)
-  have hr1' : maskMethod K c1 evs inc = some r1 := hr1
-  obtain ⟨r1'', h'', _, hp1, ht1⟩ := c05_mask_method_exact K c1 evs inc
-  rw [hr1'] at h''; cases h''
-  obtain ⟨r2, hr2, hv2, _, hp2⟩ := c05_pair_method_exact K c2 r1.events (some r1.pairs)
-    (fun p hp => hv1.table.bound p hp)
-  obtain ⟨org, ho1, ho2⟩ := C05.take_take ht1 hv2.maps_back
-  refine ⟨{ events := r2.events, pairs := r2.pairs, org := org }, ?_, ?_, hv2.table.covered, ho2,
-    C05.take_sorted hv1.org_sorted hv2.org_sorted ho1⟩
-  · simp only [chain, hr1', hr2, ho1]
-  · intro k j
-    simp only
-    rw [hp2 k j, take_getElem? hv2.maps_back j]
-    simp only [incTable, hp1]
-    constructor
-    · rintro ⟨i, e, hj, ⟨hk, e', he', hc1⟩, he, hc2⟩
-      rw [he] at he'; cases he'
-      exact ⟨hk, e, by simp [hj, he], hc1, hc2⟩
-    · rintro ⟨hk, e, he, hc1, hc2⟩
-      cases hj : r2.org[j]? with
-      | none => simp [hj] at he
-      | some i =>
-        have he' : r1.events[i]? = some e := by simpa [hj] using he
-        exact ⟨i, e, rfl, ⟨hk, e, he', hc1⟩, he', hc2⟩
-
 /-- **The box method is a mask method**: for any batch size `B ≥ 1` the batched construction of
 `SpatialBoxEventSelectionMethod` equals the mask method of the conjunction "RA criterion and Dec
 criterion", so `c05_mask_method_exact` applies to it. -/
@@ -1051,12 +1258,14 @@ theorem c05_box_method_eq {ε : Type} (B K : Nat) (hB : 1 ≤ B) (cra cdec : Nat
   funext evs inc
   unfold boxMethod maskMethod
   rw [c05_batching_irrelevant B K evs.length hB]
-  congr 1
-  unfold andMask critMask
-  rw [C05.zipWith_map_same]
-  apply List.map_congr_left
-  intro k _
-  rw [C05.zipWith_map_same]
+  have h : andMask ((List.range K).map fun k => evs.map (cra k)) (critMask cdec K evs) =
+      critMask (fun k e => cra k e && cdec k e) K evs := by
+    unfold andMask critMask
+    rw [C05.zipWith_map_same]
+    apply List.map_congr_left
+    intro k _
+    rw [C05.zipWith_map_same]
+  rw [h]
 
 theorem c05_box_method_for_current_source {ε : Type} (K : Nat) (cra cdec : Nat → ε → Bool) :
     boxMethod Gen.C05.batchSize K cra cdec = maskMethod K (fun k e => cra k e && cdec k e) :=
@@ -1090,20 +1299,53 @@ theorem c05_dec_clip (dec δ x : ℝ) :
 
 open EvSelCrit in
 /-- **Box and RA band in closed form** (ℝ): box = circle distance in RA below the half width
-`dRA_half ∈ (0, 2π]` and inside the clipped declination band; RA band = the RA part alone; the
-half width is at least `δ` (for `δ ≤ 2π`, source band not touching a pole), and an event at the
-position of a source that is not at a pole is always selected. -/
+`dRA_half ∈ (0, 2π]` and inside the clipped declination band; RA band = the RA part alone.  The half
+width is `min(2π, |δ / cosfact|)` while the band stays off the poles (`cosfact ≠ 0`) and the whole
+ring `2π` when it touches one (division by zero modelled as IEEE does, not as `x / 0 = 0`); it is at
+least `δ` for `δ ≤ 2π`; an event at the position of a non-polar source is always selected. -/
 theorem c05_box_criterion (s dec δ e x : ℝ) (hs : 0 ≤ s ∧ s ≤ 2 * Real.pi) (he : 0 ≤ e ∧ e ≤ 2 * Real.pi) :
     (inBox s dec δ e x = true ↔
       (C05Crit.circDist (e - s) < dRAhalf dec δ ∧ |x - dec| < δ ∧ -(Real.pi / 2) < x ∧ x < Real.pi / 2)) ∧
     (inRABand s dec δ e = true ↔ C05Crit.circDist (e - s) < dRAhalf dec δ) ∧
-    dRAhalf dec δ ≤ 2 * Real.pi ∧
-    (0 < δ → δ ≤ 2 * Real.pi → 0 < cosfact dec δ → δ ≤ dRAhalf dec δ) ∧
-    (0 < δ → -(Real.pi / 2) < dec ∧ dec < Real.pi / 2 → cosfact dec δ ≠ 0 → inBox s dec δ s dec = true) := by
+    (cosfact dec δ ≠ 0 → dRAhalf dec δ = min (2 * Real.pi) |δ / cosfact dec δ|) ∧
+    (cosfact dec δ = 0 → dRAhalf dec δ = 2 * Real.pi) ∧
+    (0 < δ → 0 < dRAhalf dec δ) ∧ dRAhalf dec δ ≤ 2 * Real.pi ∧
+    (0 < δ → δ ≤ 2 * Real.pi → 0 ≤ cosfact dec δ → δ ≤ dRAhalf dec δ) ∧
+    (0 < δ → -(Real.pi / 2) < dec ∧ dec < Real.pi / 2 → inBox s dec δ s dec = true) := by
   have h : |e - s| ≤ 2 * Real.pi := abs_le.mpr ⟨by linarith [hs.2, he.1], by linarith [hs.1, he.2]⟩
-  exact ⟨C05Crit.inBox_iff s dec δ e x, C05Crit.inRABand_iff s dec δ e h, C05Crit.dRAhalf_le dec δ,
+  exact ⟨C05Crit.inBox_iff s dec δ e x, C05Crit.inRABand_iff s dec δ e h, C05Crit.dRAhalf_of_ne dec δ,
+    C05Crit.dRAhalf_of_zero dec δ, C05Crit.dRAhalf_pos dec δ, C05Crit.dRAhalf_le dec δ,
     fun h1 h2 h3 => C05Crit.dRAhalf_ge_delta dec δ h1 h2 h3,
-    fun h1 h2 h3 => C05Crit.self_selected s dec δ h1 h2 h3⟩
+    fun h1 h2 => C05Crit.self_selected s dec δ h1 h2⟩
+
+open EvSelCrit in
+/-- **Bands touching a pole** (polar sources, and every source for large opening angles:
+`|dec| + δ ≥ π/2`): `cosfact = 0`, the RA window is the whole ring — the box criterion is the clipped
+declination band alone and the RA band selects every event (what the code does through
+`cos(fl(π/2)) = 6e-17`, `dRA_half = 2π`). -/
+theorem c05_band_touching_pole (s dec δ e x : ℝ) (hδ : 0 < δ)
+    (hdec : -(Real.pi / 2) ≤ dec ∧ dec ≤ Real.pi / 2) (hp : Real.pi / 2 ≤ |dec| + δ)
+    (hs : 0 ≤ s ∧ s ≤ 2 * Real.pi) (he : 0 ≤ e ∧ e ≤ 2 * Real.pi) :
+    cosfact dec δ = 0 ∧
+    (inBox s dec δ e x = true ↔ (|x - dec| < δ ∧ -(Real.pi / 2) < x ∧ x < Real.pi / 2)) ∧
+    inRABand s dec δ e = true := by
+  have h : |e - s| ≤ 2 * Real.pi := abs_le.mpr ⟨by linarith [hs.2, he.1], by linarith [hs.1, he.2]⟩
+  obtain ⟨h1, h2⟩ := C05Crit.inBox_touching_pole s dec δ e x hδ hdec hp
+  exact ⟨C05Crit.cosfact_zero_of_touching dec δ hδ hdec hp, h1, h2 h⟩
+
+open EvSelCrit in
+/-- Dec band and RA band as mask methods over ℝ: the composition "index layer ∘ criterion layer" that
+the driver executes on `Float` — `(k, j)` is listed iff returned event `j` lies in the clipped band of
+source `k` -/
+theorem c05_dec_band_method (srcDec : Nat → ℝ) (δ : ℝ) (K : Nat) (evs : List ℝ) :
+    ∃ r, maskMethod K (fun k x => inDecBand (srcDec k) δ x) evs none = some r ∧
+      (∀ k j, (k, j) ∈ r.pairs ↔ k < K ∧ ∃ x, r.events[j]? = some x ∧
+        |x - srcDec k| < δ ∧ -(Real.pi / 2) < x ∧ x < Real.pi / 2) := by
+  obtain ⟨r, hr, _, hp, _⟩ := c05_mask_method_exact K (fun k x => inDecBand (srcDec k) δ x) evs
+  refine ⟨r, hr, ?_⟩
+  intro k j
+  rw [hp k j]
+  simp only [C05Crit.inDecBand_iff]
 
 /-! ### non-vacuity -/
 
@@ -1131,6 +1373,16 @@ example : (chain (maskMethod 2 (fun k (e : Nat) => decide (e > 10 * (k + 1))))
   decide
 -- an in-range table for c05_pair_method_exact
 example : ∀ p ∈ incTable 2 3 (some [(0, 1), (1, 2)]), p.1 < 2 ∧ p.2 < 3 := by decide
+-- hypotheses of c05_band_touching_pole: a polar source; of the guarded conjuncts of c05_box_criterion: dec = 0, δ = 1
+example : -(Real.pi / 2) ≤ Real.pi / 2 ∧ Real.pi / 2 ≤ Real.pi / 2 := ⟨by have := Real.pi_pos; linarith, le_refl _⟩
+example : Real.pi / 2 ≤ |Real.pi / 2| + 1 := by rw [abs_of_pos (by have := Real.pi_pos; linarith)]; linarith
+example : (0 : ℝ) ≤ EvSelCrit.cosfact (0 : ℝ) 1 := C05Crit.cosfact_nonneg 0 1 (by norm_num) ⟨by have := Real.pi_pos; linarith, by have := Real.pi_pos; linarith⟩
+-- a state meeting the hypotheses of c05_esm_synced_inv, and a successful last call for c05_tdm_last_call_only
+example : C05.Synced ({ mgrs := fun _ => [1], obj := { shgId := 0, srcArr := [1] } } : EsmWorld Nat) := rfl
+example : initTrial 1 [7, 8] (none : Option (Method Nat)) none = some { events := [7, 8], pairs := [(0, 0), (0, 1)] } := rfl
+-- Honors instances for c05_chain_is_intersection / c05_chain_exact
+example : C05.Honors 2 (fun k (e : Nat) => decide (e > 10 * (k + 1)))
+    (maskMethod 2 (fun k (e : Nat) => decide (e > 10 * (k + 1)))) := c05_mask_method_honors_all _ _
 -- hypotheses of c05_wraparound / c05_box_criterion: a source near the seam, an event across it
 example : (0 : ℝ) ≤ 0.1 ∧ (0.1 : ℝ) ≤ 2 * Real.pi := ⟨by norm_num, by have := Real.pi_gt_three; linarith⟩
 example : (0 : ℝ) ≤ 6.2 ∧ (6.2 : ℝ) ≤ 2 * Real.pi := ⟨by norm_num, by have := Real.pi_gt_d2; norm_num at this ⊢; linarith⟩
